@@ -19,10 +19,13 @@ def groups(lines):
 
 def mon_script(script, out_lines, mon_engine):
     gs, trailing = groups(out_lines)
-    if len(gs) != len(script.lines) or trailing:
+    ops = list(script.lines)
+    if len(gs) == len(ops) + 1:
+        ops.append("END")          # the group produced by tearing the objects down
+    if len(gs) != len(ops) or trailing:
         return None
     lines = []
-    for op, g in zip(script.lines, gs):
+    for op, g in zip(ops, gs):
         lines.append("> " + op)
         lines += ["< " + o for o in g]
     return Script(script.id, mon_engine, lines, script.args)
